@@ -151,6 +151,9 @@ def check(P, R):
     R.ob('C12.c', ii, calls[0] if calls else ii.node, ok, text='field.read(src, headers_slice, data_slice)', detail='' if ok else
          'a field is not read from its own header/data sections')
 
+    # what is delivered as a file is a window of the shared body buffer: it reads its own part, at its own position, whatever else was read in between
+    from . import c07 as _c07
+    _c07.check_upload_window(P, R, 'C12.c')
     # a field must not take over bytes of the following part: the delimiter found resets the carried remainder
     from . import c06
     c06.check_eat_data_resets(P, _Sub(R, {}), 'C12.c')
